@@ -135,7 +135,10 @@ func init() {
 	Properties["C02"] = func(env *Env) []*Harness { return []*Harness{HMock(), HGenSeq()} }
 	Properties["C09"] = func(env *Env) []*Harness { return []*Harness{HMock()} }
 	Properties["C10"] = func(env *Env) []*Harness { return []*Harness{HMock()} }
-	Properties["C19"] = func(env *Env) []*Harness { return []*Harness{HMock(), HVars(), HRun(), HMain(), HPairName()} }
+	Properties["C19"] = func(env *Env) []*Harness {
+		return []*Harness{HImports(), HMock(), HVars(), HRun(), HMain(), HPairName()}
+	}
+	Properties["C11"] = func(env *Env) []*Harness { return []*Harness{HImports(), HMock()} }
 	Properties["C12"] = func(env *Env) []*Harness { return []*Harness{HVars()} }
 	Properties["C14"] = func(env *Env) []*Harness { return []*Harness{HOrder()} }
 	Properties["C15"] = func(env *Env) []*Harness { return []*Harness{HRun()} }
